@@ -11,6 +11,7 @@ import functools
 import hashlib
 import itertools
 import json
+import math
 import os
 import shutil
 import subprocess
@@ -287,7 +288,7 @@ def name_maps(tier, wide, k):
         return perms + [list(POOL2), list(reversed(POOL2))]
     if k == 3:
         return perms[::4] + [list(POOL2), list(reversed(POOL2))]
-    return [perms[0], perms[-1], list(POOL2)]
+    return [perms[-1], list(POOL2)]
 
 
 def leaf_specs(tier):
@@ -764,7 +765,7 @@ def run(ctx):
         "variables; thorough: all kinds at arity 4, conditionals over <=4 variables. Non-trivial = arity >= 2 and a non-empty "
         "partial assignment."
         % (HASH_SEEDS, "1-2 maps" if ctx.quick else "all 24 permutations of x,y,z,w + a second name pool at arity <=2, 8 maps at "
-           "arity 3, 3 at arity 4 (expression kinds); 2-4 maps otherwise")
+           "arity 3, 2 at arity 4 (expression kinds); 1-4 maps otherwise")
     )
     ctx.assumptions = [
         "Documented exception accepted: ConditionalRelation(return_neutral=False).slice with a false, fully assigned condition "
@@ -772,6 +773,9 @@ def run(ctx):
         "documented_zeroary_on_false_condition).",
         "Python's set iteration order is a function of PYTHONHASHSEED and the insertion history only (sub-processes with the same "
         "seed behave identically).",
+        "One relation object per (relation, names) serves all its cases (relations are documented immutable); the unsliced "
+        "relation is re-evaluated after the last case and a difference is reported (key ...|original-relation-changed-by-slicing). "
+        "A replay always rebuilds the relation.",
         "Inputs the docstrings exclude are not enumerated: slicing on foreign variable names, python functions whose positional "
         "argument order differs from the variable list (without f_kwargs), variable names that are Python builtins or start with 'source'.",
     ]
@@ -785,8 +789,6 @@ def run(ctx):
         del ctx.part.counters[name]
     ctx.extra["hash_seeds"] = list(HASH_SEEDS)
     ctx.extra["set_order_permutations_observed"] = {k: len(v) for k, v in sorted(perms.items())}
-    import math
-
     for k, seen in perms.items():
         if len(seen) != math.factorial(int(k.split("=")[1])):
             ctx.exhaustive = False
